@@ -298,11 +298,15 @@ deriving DecidableEq, Repr
 structure Info where
   /-- `get_module_source_metadata(info.code, full_line_map=True)["full_line_map"]` -/
   fullMap : List Nat
-  /-- `info.source.split("\n")` -/
+  /-- `info.source.split("\n")` = `linesOf info.source`: split on `'\n'` ONLY, as the lexer counts lines
+      (form feed, vertical tab, FS/GS/RS, NEL, U+2028/2029, a lone CR do not end a line) -/
   templateLines : List Str
   /-- `info.template_filename or info.template_uri or filename` -/
   templateFilename : Str
 deriving DecidableEq, Repr
+
+/-- `template_lines = [line_ for line_ in template_source.split("\n")]` -/
+def linesOf (source : Str) : List Str := splitNL source
 
 /-- `ModuleInfo._modules`: keyed by module name and by module file name -/
 abbrev Registry := List (Str × Info)
